@@ -14,16 +14,86 @@ from .core import HarnessError
 
 
 class _Future:
-    def __init__(self, idx):
+    """The part of concurrent.futures.Future that callers use."""
+
+    def __init__(self, idx, pool=None):
         self.idx = idx
-        self.done = False
+        self.pool = pool
+        self.is_done = False
+        self.done_seq = None
         self.result_value = None
-        self.exception = None
+        self.exc = None
+        self.callbacks = []
+
+    def _finish(self):
+        self.is_done = True
+        sim = simsched.SIM
+        sim.done_counter = getattr(sim, "done_counter", 0) + 1
+        self.done_seq = sim.done_counter
+        for cb in self.callbacks:
+            cb(self)
+
+    def done(self):
+        return self.is_done
+
+    def running(self):
+        return not self.is_done
+
+    def cancelled(self):
+        return False
+
+    def cancel(self):
+        return False
+
+    def add_done_callback(self, fn):
+        if self.is_done:
+            fn(self)
+        else:
+            self.callbacks.append(fn)
 
     def result(self, timeout=None):
-        if self.exception is not None:
-            raise self.exception
+        if not self.is_done:
+            self.pool._wait([self])
+        if self.exc is not None:
+            raise self.exc
         return self.result_value
+
+    def exception(self, timeout=None):
+        if not self.is_done:
+            self.pool._wait([self])
+        return self.exc
+
+
+def sim_as_completed(fs, timeout=None):
+    """concurrent.futures.as_completed on simulated futures."""
+    pending = list(fs)
+    while pending:
+        ready = sorted([f for f in pending if f.is_done],
+                       key=lambda f: f.done_seq)
+        if not ready:
+            pending[0].pool._wait_any(pending)
+            continue
+        for f in ready:
+            pending.remove(f)
+            yield f
+
+
+class _DoneAndNotDone(tuple):
+    done = property(lambda self: self[0])
+    not_done = property(lambda self: self[1])
+
+
+def sim_wait(fs, timeout=None, return_when="ALL_COMPLETED"):
+    fs = list(fs)
+    if return_when == "ALL_COMPLETED":
+        for f in fs:
+            if not f.is_done:
+                f.pool._wait([f])
+    else:
+        if fs and not any(f.is_done for f in fs):
+            fs[0].pool._wait_any(fs)
+    return _DoneAndNotDone(({f for f in fs if f.is_done},
+                            {f for f in fs if not f.is_done}))
 
 
 class SimPoolBase:
@@ -57,6 +127,8 @@ class SimPoolBase:
     def shutdown(self, wait=True, cancel_futures=False):
         if wait:
             self._wait(self.futures)
+        else:
+            self.sim.probe("shutdown_without_wait")
         self.shut = True
         self.sim.ev("pool-shutdown", self.kind, self.seq)
 
@@ -68,7 +140,7 @@ class SimThreadPool(SimPoolBase):
         if self.shut:
             raise RuntimeError("cannot schedule new futures after shutdown")
         sim = self.sim
-        fut = _Future(len(self.futures))
+        fut = _Future(len(self.futures), self)
         self.futures.append(fut)
         name = "p%dt%d" % (self.seq, fut.idx)
         fut.name = name
@@ -77,18 +149,24 @@ class SimThreadPool(SimPoolBase):
             try:
                 fut.result_value = fn(*args, **kwargs)
             except BaseException as e:  # noqa: BLE001 - delivered via future
-                fut.exception = e
+                fut.exc = e
             finally:
-                fut.done = True
                 sim.ev("task-done", name)
+                fut._finish()
         sim.ev("task-submit", name)
+        if getattr(sim, "stall_index", None) == fut.idx:
+            sim.stalled.add(name)   # a slow worker: runs when nobody else can
         sim.spawn(name, run)
         return fut
 
-    def _wait(self, futs):
+    def _wait_any(self, futs):
+        self._wait(futs, any_of=True)
+
+    def _wait(self, futs, any_of=False):
         sim = self.sim
         guard = 0
-        while any(not f.done for f in futs):
+        while (not any(f.is_done for f in futs)) if any_of else \
+                any(not f.is_done for f in futs):
             guard += 1
             if guard > 100000:
                 raise HarnessError("pool wait does not terminate")
@@ -106,7 +184,7 @@ class SimProcessPool(SimPoolBase):
     def submit(self, fn, *args, **kwargs):
         if self.shut:
             raise RuntimeError("cannot schedule new futures after shutdown")
-        fut = _Future(len(self.futures))
+        fut = _Future(len(self.futures), self)
         self.futures.append(fut)
         # what a real pool does at submit: pickle the work item
         fut.payload = pickle.dumps((fn, args, kwargs))
@@ -139,21 +217,38 @@ class SimProcessPool(SimPoolBase):
             data = f.read()
         os.waitpid(pid, 0)
         if not data:
-            fut.exception = RuntimeError("worker process died")
+            fut.exc = RuntimeError("worker process died")
         else:
             tag, val = pickle.loads(data)
             if tag == "ok":
                 fut.result_value = val
             else:
-                fut.exception = val
-        fut.done = True
+                fut.exc = val
+        fut._finish()
 
-    def _wait(self, futs):
+    def _wait_any(self, futs):
+        self._wait(futs, any_of=True)
+
+    def _wait(self, futs, any_of=False):
         sim = self.sim
-        pending = [f for f in self.futures if not f.done]
+        pending = [f for f in self.futures if not f.is_done]
         # completion order of the worker processes is a decision
-        while any(not f.done for f in futs):
+        while (not any(f.is_done for f in futs)) if any_of else \
+                any(not f.is_done for f in futs):
             k = sim.dec.choose("complete", len(pending))
             f = pending.pop(k)
             sim.ev("task-done", "p%dx%d" % (self.seq, f.idx))
             self._run_one(f)
+
+
+def install_executors(module=None):
+    """Rebind the executor seams (globally and, where a module imported the
+    names directly, in that module)."""
+    import concurrent.futures as cf
+    repl = {"ThreadPoolExecutor": SimThreadPool,
+            "ProcessPoolExecutor": SimProcessPool,
+            "as_completed": sim_as_completed, "wait": sim_wait}
+    for name, obj in repl.items():
+        setattr(cf, name, obj)
+        if module is not None and hasattr(module, name):
+            setattr(module, name, obj)
